@@ -881,6 +881,9 @@ class ReadParquetPyarrowFS(ReadParquet):
                 for finfo in self.fs.get_file_info(dataset_selector)
                 if finfo.type == pa.fs.FileType.File
             ]
+            # The listing order depends on the filesystem: order the files by
+            # name (numerically), like the fsspec reader does
+            all_files = sorted(all_files, key=lambda fi: natural_sort_key(fi.path))
         except (NotADirectoryError, FileNotFoundError):
             all_files = [self.fs.get_file_info(path_normalized)]
         # TODO: At this point we could verify if we're dealing with a very
